@@ -29,9 +29,10 @@ CHECKS["C07"] = {
     "parallel": 6,
     "quick": [
         # k single-entry batches, one validator, attester duty: share index, root, signature id symbolic per step
-        {"harness": "VerifC07Single", "params": {"n": 4, "k": 5, "dtype": 2, "vals": 0, "ints": [0, 21]}},
-        {"harness": "VerifC07Single", "params": {"n": 3, "k": 4, "dtype": 2, "vals": [0, 5], "ints": 0}},
-        {"harness": "VerifC07Single", "params": {"n": 4, "k": 4, "dtype": 3, "vals": 0, "ints": 0}},
+        {"harness": "VerifC07Single", "params": {"n": 4, "k": 5, "dtype": 2, "vals": 0, "ints": [0, 21], "bad": 0}},
+        {"harness": "VerifC07Single", "params": {"n": 3, "k": 4, "dtype": 2, "vals": [0, 5], "ints": 0, "bad": 0}},
+        {"harness": "VerifC07Single", "params": {"n": 4, "k": 4, "dtype": 3, "vals": 0, "ints": 0, "bad": 0}},
+        {"harness": "VerifC07Single", "params": {"n": 4, "k": 4, "dtype": 2, "vals": 0, "ints": [0, 5], "bad": 1}},
         # one two-entry batch after "pre" single-entry stores alternating between two validators
         {"harness": "VerifC07Batch", "params": {"n": 4, "pre": [4, 5]}},
         {"harness": "VerifC07Batch", "params": {"n": 3, "pre": [2, 3]}},
@@ -45,14 +46,15 @@ CHECKS["C07"] = {
         {"harness": "VerifC07Subcomm", "params": {"n": 4, "k": 6, "subs": [42, 56, 7]}},
     ],
     "thorough": [
-        {"harness": "VerifC07Single", "params": {"n": 4, "k": 6, "dtype": 2, "vals": [0, 21], "ints": [0, 21, 63]}, "cross": True},
-        {"harness": "VerifC07Single", "params": {"n": 3, "k": 5, "dtype": 2, "vals": [0, 5], "ints": [0, 10]}, "cross": True},
-        {"harness": "VerifC07Single", "params": {"n": [5, 6, 7], "k": 7, "dtype": 2, "vals": 0, "ints": 0}, "timeout_ms": 300000},
-        {"harness": "VerifC07Single", "params": {"n": 4, "k": 5, "dtype": [3, 9], "vals": 0, "ints": 0}},
-        {"harness": "VerifC07Single", "params": {"n": 4, "k": 5, "dtype": 2, "vals": 0, "ints": 0}, "reversemaps": True},
+        {"harness": "VerifC07Single", "params": {"n": 4, "k": 6, "dtype": 2, "vals": [0, 21], "ints": [0, 21, 63], "bad": 0}, "cross": True},
+        {"harness": "VerifC07Single", "params": {"n": 3, "k": 5, "dtype": 2, "vals": [0, 5], "ints": [0, 10], "bad": 0}, "cross": True},
+        {"harness": "VerifC07Single", "params": {"n": [5, 6, 7], "k": 7, "dtype": 2, "vals": 0, "ints": 0, "bad": 0}, "timeout_ms": 300000},
+        {"harness": "VerifC07Single", "params": {"n": 4, "k": 5, "dtype": [3, 9], "vals": 0, "ints": 0, "bad": 0}},
+        {"harness": "VerifC07Single", "params": {"n": 4, "k": 5, "dtype": 2, "vals": 0, "ints": 0, "bad": 0}, "reversemaps": True},
         {"harness": "VerifC07Batch", "params": {"n": [3, 4, 5], "pre": [3, 4, 5, 6, 7]}, "timeout_ms": 300000},
         {"harness": "VerifC07Batch", "params": {"n": [3, 4, 5], "pre": [3, 4, 5, 6, 7]}, "reversemaps": True, "timeout_ms": 300000},
         {"harness": "VerifC07Subcomm", "params": {"n": 4, "k": [6, 7], "subs": [42, 56, 7, 21, 85, 102]}, "cross": True},
+        {"harness": "VerifC07Single", "params": {"n": 4, "k": 5, "dtype": 2, "vals": 0, "ints": [0, 21], "bad": 1}, "cross": True},
     ],
     "bounds": {
         "quick": "n in {3,4}, threshold ceil(2n/3); histories of k<=5 single-entry batches; share index 1..n, root in {0,1,2}, signature id (8 bit) symbolic per step; internal/external pattern and validator-per-step pattern concrete per case; loop unwinding 12; plus one two-validator batch after up to 5 preliminary single-entry stores (both map iteration orders)",
